@@ -240,7 +240,7 @@ impl Property for C19 {
         tier.pick(150000, 4800000)
     }
     fn strategy(&self, tier: Tier) -> BoxedStrategy<C19Case> {
-        let over = ((0usize..18).prop_map(|i| FIXED_TIDS[i]), 0usize..5, 1usize..70, 0usize..21, any::<bool>(), 0..NT, any::<u16>()).prop_map(|(ty, below, d, o, fill, other, at)| C19Case::Over { ty, below, d, op: OVER_OPS[o], fill, other, at });
+        let over = ((0usize..21).prop_map(|i| FIXED_TIDS[i]), 0usize..5, 1usize..70, 0usize..21, any::<bool>(), 0..NT, any::<u16>()).prop_map(|(ty, below, d, o, fill, other, at)| C19Case::Over { ty, below, d, op: OVER_OPS[o], fill, other, at });
         let bad = (arb_operand(tier), 0usize..5, prop_oneof![Just(0usize), Just(1), 0usize..200]).prop_map(|(a, w, beyond)| C19Case::BadIndex { a, which: [BadIdx::Get, BadIdx::Set, BadIdx::CopyRangeEnd, BadIdx::CopyRangeStart, BadIdx::SplitOff][w], beyond });
         prop_oneof![5 => over, 1 => bad].boxed()
     }
@@ -267,7 +267,7 @@ impl Property for C19 {
                 }
             }
         }
-        for t in 0..NT {
+        for t in ROUTINE_TIDS {
             if !sh.mine() {
                 continue;
             }
